@@ -155,6 +155,12 @@ pub trait TypeOps: Send + Sync {
     fn schema(&self, ver: u32) -> Schema;
     /// containers of this type that have a bulk path: (label, ops)
     fn bulk_wrappers(&self) -> Vec<(String, Box<dyn BulkOps>)>;
+    /// load_encrypted_file with an explicit password
+    fn load_enc_pw(&self, bytes: &[u8], ver: u32, password: &str) -> Outcome<Val>;
+    /// CryptoReader + load with an explicit key
+    fn load_crypto_key(&self, bytes: &[u8], ver: u32, key: [u8; 32]) -> Outcome<Val>;
+    /// like `load` but inspects the returned value cautiously (see `Inspect`)
+    fn load_inspect(&self, bytes: &[u8], ver: u32, c: Container) -> Outcome<Inspect>;
     /// bare-deserialize and report (element count claimed by the result, validity of bit patterns)
     fn bare_de_inspect(&self, bytes: &[u8], ver: u32) -> Outcome<Inspect>;
 }
@@ -167,6 +173,10 @@ pub struct Inspect {
     /// number of non-zero-sized leaf elements claimed by all collections in the value
     pub claimed_elems: u128,
     pub consumed: usize,
+    /// false if a bool / char / enum tag inside the value holds an invalid bit pattern
+    pub valid_bits: bool,
+    /// the value holds more than WALK_CAP elements that have no wire representation; not walked
+    pub walk_skipped: bool,
 }
 
 pub struct Ops<T>(pub PhantomData<fn() -> T>);
@@ -174,6 +184,31 @@ pub struct Ops<T>(pub PhantomData<fn() -> T>);
 impl<T> Ops<T> {
     pub fn new() -> Self {
         Ops(PhantomData)
+    }
+}
+
+/// Look at a value returned by a deserializer without trusting it: lengths first, then bit
+/// patterns, and only then a full walk. Values that fail a stage are leaked, not dropped.
+pub fn inspect_value<T: Model>(x: T, limit: u128, consumed: usize) -> Inspect {
+    crate::stdimpls::TOTAL_ELEMS.with(|c| c.set(0));
+    let claimed = x.claim(limit);
+    if claimed > limit {
+        std::mem::forget(x);
+        return Inspect { val: None, claimed_elems: claimed, consumed, valid_bits: true, walk_skipped: false };
+    }
+    if crate::stdimpls::TOTAL_ELEMS.with(|c| c.get()) > crate::stdimpls::WALK_CAP {
+        // legitimately huge (elements without wire representation, e.g. Vec<()>): do not walk it
+        std::mem::forget(x);
+        return Inspect { val: None, claimed_elems: claimed, consumed, valid_bits: true, walk_skipped: true };
+    }
+    if !x.valid_bits() {
+        std::mem::forget(x);
+        return Inspect { val: None, claimed_elems: claimed, consumed, valid_bits: false, walk_skipped: false };
+    }
+    let val = catch(|| x.to_val()).ok();
+    match catch(move || drop(x)) {
+        Ok(()) => Inspect { val, claimed_elems: claimed, consumed, valid_bits: true, walk_skipped: false },
+        Err(_) => Inspect { val: None, claimed_elems: claimed, consumed, valid_bits: true, walk_skipped: false },
     }
 }
 
@@ -305,20 +340,35 @@ where
     fn bulk_wrappers(&self) -> Vec<(String, Box<dyn BulkOps>)> {
         mk_wrappers::<T>()
     }
+    fn load_enc_pw(&self, bytes: &[u8], ver: u32, password: &str) -> Outcome<Val> {
+        let p = temp_path("pw");
+        if let Err(e) = std::fs::write(&p, bytes) {
+            return Outcome::Err("HarnessIo".into(), e.to_string());
+        }
+        let o = outcome(|| savefile::load_encrypted_file::<T, _>(&p, ver, password));
+        let _ = std::fs::remove_file(&p);
+        o.map(|x| x.to_val())
+    }
+    fn load_crypto_key(&self, bytes: &[u8], ver: u32, key: [u8; 32]) -> Outcome<Val> {
+        let mut r = CountingReader { data: bytes, pos: 0 };
+        outcome(|| {
+            let mut dr = DynR(&mut r);
+            let mut cr = savefile::CryptoReader::new(&mut dr, key)?;
+            savefile::load::<T>(&mut cr, ver)
+        })
+        .map(|x| x.to_val())
+    }
+    fn load_inspect(&self, bytes: &[u8], ver: u32, c: Container) -> Outcome<Inspect> {
+        let mut r = CountingReader { data: bytes, pos: 0 };
+        let o = outcome(|| load_impl::<T>(&mut r, ver, c));
+        let consumed = r.pos;
+        let limit = bytes.len() as u128;
+        o.map(|x| inspect_value(x, limit, consumed))
+    }
     fn bare_de_inspect(&self, bytes: &[u8], ver: u32) -> Outcome<Inspect> {
         let (o, consumed) = bare_de_impl::<T>(bytes, ver);
         let limit = bytes.len() as u128;
-        o.map(|x| {
-            // lengths are inspected before any element is touched; a value claiming more
-            // elements than the input has bytes is leaked rather than walked or dropped.
-            let claimed = x.claim(limit);
-            if claimed > limit {
-                std::mem::forget(x);
-                return Inspect { val: None, claimed_elems: claimed, consumed };
-            }
-            let val = catch(|| x.to_val()).ok();
-            Inspect { val, claimed_elems: claimed, consumed }
-        })
+        o.map(|x| inspect_value(x, limit, consumed))
     }
 }
 
